@@ -16,7 +16,7 @@ class ExcelComparator_init:
         return {'value': serial(value) if is_date(value) else value}
 
 
-@contract('hotxlfp.formulas.operators:ExcelComparator.convert_other', props=['C07'])
+@contract('hotxlfp.formulas.operators:ExcelComparator.convert_other', props=['C07', 'C13'])
 class ExcelComparator_convert_other:
     args = dict(self=OBJECT('hotxlfp.formulas.operators:ExcelComparator', value=BOOL | INT | FLOAT | STR), other=CMP)
 
@@ -31,7 +31,7 @@ class ExcelComparator_convert_other:
         return other
 
 
-@contract('hotxlfp.formulas.operators:ExcelComparator.__lt__', props=['C07'])
+@contract('hotxlfp.formulas.operators:ExcelComparator.__lt__', props=['C07', 'C13'])
 class ExcelComparator_lt:
     args = dict(self=OBJECT('hotxlfp.formulas.operators:ExcelComparator', value=CMPV), other=CMP)
 
@@ -42,7 +42,7 @@ class ExcelComparator_lt:
         return xl_lt(self.value, other)
 
 
-@contract('hotxlfp.formulas.operators:ExcelComparator.__gt__', props=['C07'])
+@contract('hotxlfp.formulas.operators:ExcelComparator.__gt__', props=['C07', 'C13'])
 class ExcelComparator_gt:
     args = dict(self=OBJECT('hotxlfp.formulas.operators:ExcelComparator', value=CMPV), other=CMP)
 
@@ -53,7 +53,7 @@ class ExcelComparator_gt:
         return xl_lt(other, self.value)
 
 
-@contract('hotxlfp.formulas.operators:ExcelComparator.__eq__', props=['C07'])
+@contract('hotxlfp.formulas.operators:ExcelComparator.__eq__', props=['C07', 'C13'])
 class ExcelComparator_eq:
     args = dict(self=OBJECT('hotxlfp.formulas.operators:ExcelComparator', value=CMPV), other=CMP)
 
@@ -64,7 +64,7 @@ class ExcelComparator_eq:
         return xl_eq(self.value, other)
 
 
-@contract('hotxlfp.formulas.operators:ExcelComparator.__le__', props=['C07'])
+@contract('hotxlfp.formulas.operators:ExcelComparator.__le__', props=['C07', 'C13'])
 class ExcelComparator_le:
     args = dict(self=OBJECT('hotxlfp.formulas.operators:ExcelComparator', value=CMPV), other=CMP)
 
@@ -75,7 +75,7 @@ class ExcelComparator_le:
         return xl_lt(self.value, other) or xl_eq(self.value, other)
 
 
-@contract('hotxlfp.formulas.operators:ExcelComparator.__ge__', props=['C07'])
+@contract('hotxlfp.formulas.operators:ExcelComparator.__ge__', props=['C07', 'C13'])
 class ExcelComparator_ge:
     args = dict(self=OBJECT('hotxlfp.formulas.operators:ExcelComparator', value=CMPV), other=CMP)
 
@@ -160,7 +160,7 @@ class order_classes:
         return xl_lt(n, t) and xl_lt(t, l) and xl_lt(n, l) and not xl_lt(t, n) and not xl_lt(l, t) and not xl_lt(l, n)
 
 
-@contract('hotxlfp.formulas.operators:is_number', props=['C07'])
+@contract('hotxlfp.formulas.operators:is_number', props=['C07', 'C13'])
 class is_number:
     args = dict(value=SCALAR)
 
